@@ -63,7 +63,7 @@ type rCase struct {
 	// throws it away) instead of recovery.WithoutLogging
 	Log bool `json:"log,omitempty"`
 	// Stack: with Log — 0 = default stack capture; 1 = WithStackTrace(false); n >= 2: WithStackSize(n-2)
-	// (0, 8, 16 bytes: smaller than the first line of any trace)
+	// (0, 8, 16 bytes: smaller than the first line of any trace); n < 0: WithStackSize(n)
 	Stack int `json:"stack,omitempty"`
 	// PreV: 0 = nothing; v+1 = before the request of the case the same router has served (and recovered) a
 	// request whose handler panicked with value v
@@ -114,6 +114,8 @@ func buildR(c rCase) (*cx.World, error) {
 				ropts = append(ropts, recovery.WithStackTrace(false))
 			case c.Stack >= 2:
 				ropts = append(ropts, recovery.WithStackSize(c.Stack-2))
+			case c.Stack < 0:
+				ropts = append(ropts, recovery.WithStackSize(c.Stack))
 			}
 		}
 		if c.RecH {
@@ -316,7 +318,7 @@ func genR(r *hx.Rand, st *hx.Stats) rCase {
 		c.RecH = r.Chance(1, 3)
 		c.Log = r.Chance(1, 2)
 		if c.Log && r.Chance(1, 2) {
-			c.Stack = hx.Pick(r, []int{1, 2, 10, 18, 66, 4098})
+			c.Stack = hx.Pick(r, []int{1, 2, 10, 18, 66, 4098, -1, -4096})
 		}
 	} else {
 		c.Obs = r.Chance(1, 2)
@@ -1321,6 +1323,8 @@ func fixedR() []rCase {
 		// a panic value whose Error method panics itself (typed nil), recovery logging on
 		{Kind: "R", Check: true, Log: true, Chain: []cx.Beh{{H: 1, Acts: []cx.Act{p(cx.TypedNilPanic)}}}},
 		{Kind: "R", Check: true, App: true, Global: 1, Chain: []cx.Beh{{H: 1, Acts: a("N")}, {H: 2, Acts: []cx.Act{{K: "W"}, p(cx.TypedNilPanic)}}}},
+		// K10e: recovery.WithStackSize(-1) — as shipped recovery itself panicked in captureStack (stack[:-1])
+		{Kind: "R", Check: true, Log: true, Stack: -1, Chain: []cx.Beh{{H: 1, Acts: []cx.Act{p(0)}}, {H: 2, Acts: a("W")}}},
 		// recovery.WithStackSize(0): the captured stack is cut to nothing
 		{Kind: "R", Check: true, Log: true, Stack: 2, Chain: []cx.Beh{{H: 1, Acts: []cx.Act{p(1)}}}},
 		// the panic comes out of app.Readiness().Check() (a gate whose Ready method panics)
